@@ -208,6 +208,7 @@ type builtInput struct {
 	copyOf  []byte
 	args    [][]byte // deep copy of the arguments
 	call    Call
+	ambient string // ambientOf(in) when the input was built
 }
 
 func u64bytes(v uint64) []byte { return new(big.Int).SetUint64(v).Bytes() }
@@ -267,7 +268,34 @@ func buildInput(c Call) *builtInput {
 		RecipientAddr: rcv,
 		Function:      c.Func,
 	}
+	// the fields a built-in function has no business with (gas price, transaction hashes, the
+	// transfer list the VM fills in for contract calls, the init-function switch) vary with the
+	// call - as a function of the call itself, so that a replay builds the same input
+	h := uint32(2166136261)
+	for _, b := range []byte(c.Func) {
+		h = (h ^ uint32(b)) * 16777619
+	}
+	for _, a := range c.Args {
+		for _, b := range a {
+			h = (h ^ uint32(b)) * 16777619
+		}
+		h = (h ^ 0xff) * 16777619
+	}
+	switch h % 5 {
+	case 1:
+		in.GasPrice, in.OriginalTxHash, in.CurrentTxHash, in.PrevTxHash = 0, nil, nil, nil
+		in.ESDTTransfers = []*vmcommon.ESDTTransfer{}
+	case 2:
+		in.GasPrice = ^uint64(0)
+		in.OriginalTxHash, in.CurrentTxHash, in.PrevTxHash = bytes.Repeat([]byte{0xAA}, 32), bytes.Repeat([]byte{0xBB}, 32), bytes.Repeat([]byte{0xCC}, 32)
+		in.AllowInitFunction = true
+	case 3:
+		in.GasPrice = 1000000000
+		in.OriginalTxHash, in.CurrentTxHash, in.PrevTxHash = []byte{}, []byte{}, []byte{}
+		in.ESDTTransfers = []*vmcommon.ESDTTransfer{{ESDTTokenName: []byte("AMBIENT-000000"), ESDTValue: big.NewInt(1 << 40), ESDTTokenNonce: 7, ESDTTokenType: 1}}
+	}
 	bi := &builtInput{in: in, backing: backing, call: c}
+	bi.ambient = ambientOf(in)
 	bi.copyOf = append([]byte{}, backing...)
 	return bi
 }
@@ -308,10 +336,23 @@ func (bi *builtInput) mutated() string {
 	if in.Function != c.Func || in.GasProvided != c.Gas || in.GasLocked != c.GasLocked || in.CallType != c.CallType || in.ReturnCallAfterError != c.RetAfterErr {
 		return "scalar input field changed"
 	}
-	if string(in.OriginalTxHash) != "origtx" || string(in.CurrentTxHash) != "curtx" || string(in.PrevTxHash) != "prevtx" || in.GasPrice != 1 || in.ESDTTransfers != nil {
-		return "tx hash / price / ESDTTransfers field changed"
+	if ambientOf(in) != bi.ambient {
+		return "tx hash / price / ESDTTransfers / AllowInitFunction field changed"
 	}
 	return ""
+}
+
+// ambientOf: the fields of the input a built-in function has no business with, as one string.
+func ambientOf(in *vmcommon.ContractCallInput) string {
+	s := fmt.Sprintf("%d|%x|%v|%x|%v|%x|%v|%v|%v|%d", in.GasPrice, in.OriginalTxHash, in.OriginalTxHash == nil, in.CurrentTxHash, in.CurrentTxHash == nil, in.PrevTxHash, in.PrevTxHash == nil, in.AllowInitFunction, in.ESDTTransfers == nil, len(in.ESDTTransfers))
+	for _, t := range in.ESDTTransfers {
+		if t == nil {
+			s += "|nil"
+			continue
+		}
+		s += fmt.Sprintf("|%x/%v/%d/%d", t.ESDTTokenName, t.ESDTValue, t.ESDTTokenNonce, t.ESDTTokenType)
+	}
+	return s
 }
 
 // ---------------------------------------------------------------------------------------------
